@@ -32,6 +32,7 @@ from harness import findings as kf  # noqa: E402
 from harness.native import check_native, default_domain  # noqa: E402
 
 REPO = os.environ.get("NIMA_REPO", "/repo")
+LOCKED: dict = {}
 
 
 # ---------------------------------------------------------------------------------------------
@@ -260,8 +261,12 @@ def write_replay(prop, payload):
 
 
 def run_property(prop_id, tier, seed):
+    from harness import lock as _lock
     from harness.props import PROPS
     from pvc.run import load_contracts
+
+    global LOCKED
+    LOCKED = _lock.load()
 
     t0 = time.time()
     P = PROPS[prop_id]
@@ -300,6 +305,9 @@ def run_property(prop_id, tier, seed):
         real = [o for o in r["obligations"] if not o["must_fail"]]
         if r["status"] == "ok" and not real and r["name"] != "spec-lemmas":
             crashed.append(dict(r, error="zero obligations generated (vacuous run)"))
+        lk = LOCKED.get(r["name"])
+        if lk and r["status"] == "ok" and lk["src_hash"] == r["src_hash"] and lk["obligations"] != len(real) and not os.environ.get("NIMA_REPO"):
+            crashed.append(dict(r, error=f"obligation count changed ({lk['obligations']} -> {len(real)}) although the function source is unchanged"))
         for o in r["obligations"]:
             solver_s += o["seconds"]
             for b, k in o["backends"].items():
